@@ -134,6 +134,7 @@ const P_RETAINED_VALUE_CHECKS: usize = 16;
 const P_SWEEP_TRACES: usize = 17;
 const P_BUFFER_WRAPPED_IN_PRESS: usize = 18;
 const P_BLIND_SAMPLES: usize = 19;
+const P_MEASURED_CORRECTION_USED: usize = 20;
 
 pub struct Exec {
     cfg: Cfg,
@@ -148,12 +149,15 @@ pub struct Exec {
     pressing: bool,
     jp: bool,
     jr: bool,
+    /// changes of finger_is_pressing() not yet answered with `true` (upper bound on how many `true`s may still come)
+    jp_unread: u32,
+    jr_unread: u32,
     retained: u32,
     ambiguous: bool,
     presses: u32,
     short_runs_since_press: u32,
     /// set when a press ended while nobody was looking: (value the press ended on, tolerance)
-    lift_expect: Option<(f64, f64)>,
+    lift_expect: Option<(f64, f64, f64, f64)>,
 }
 
 impl Exec {
@@ -169,6 +173,30 @@ impl Exec {
 
     fn g(&self, m: f64) -> f64 {
         (m - (m - m * m) * self.e) / self.b as f64
+    }
+
+    /// the controller's own correction curve, measured: what a fresh controller reports for a press held at the constant
+    /// level `m`.  The statement says "corrected for the pull-up resistor and rescaled" without a formula, so when the
+    /// documented formula `g` does not fit, the value is compared with this instead (mean first, then whatever
+    /// correction the implementation applies); never consulted while the documented formula fits
+    ///
+    /// The measured curve is only accepted as "a pull-up correction" while it stays within a quarter of the documented
+    /// correction term of the documented formula (a re-derivation of the same physics differs in second order; a
+    /// dropped, doubled or sign-flipped correction differs by the whole term or more); otherwise NaN, which fits nothing
+    fn g_measured(&self, m: f64, cap_at: f64) -> f64 {
+        let x = (m.min(cap_at)) as f32;
+        let mut f = make(&self.cfg);
+        for _ in 0..self.l_need + 1 {
+            real!(f.poll(x));
+        }
+        let got = real!(f.value()) as f64;
+        let xm = x as f64;
+        let term = ((xm - xm * xm) * self.e / self.b as f64).abs();
+        if (got - self.g(xm)).abs() <= 0.25 * term + 16.0 * 5.960464477539063e-8 {
+            got
+        } else {
+            f64::NAN
+        }
     }
 
     /// (expected value, tolerance, corrected min, corrected max, window) for the current run, which must be a press
@@ -196,18 +224,42 @@ impl Exec {
         (want, tol, self.g(mn), self.g(mx), (lo, hi))
     }
 
+    /// (mean, min, max) of the samples that contribute to the value of the current press
+    fn window_stats(&self) -> (f64, f64, f64) {
+        let l = self.run.len();
+        let lo = l - self.cap;
+        let hi = l - self.discard;
+        let mean = (self.prefix[hi] - self.prefix[lo]) / (hi - lo) as f64;
+        let (mut mn, mut mx) = (f64::MAX, f64::MIN);
+        for x in &self.run[lo..hi] {
+            mn = mn.min(*x as f64);
+            mx = mx.max(*x as f64);
+        }
+        (mean, mn, mx)
+    }
+
     fn value_oracle(&mut self, ctx: &mut Ctx) {
         let l = self.run.len();
         let (want, tol, glo, ghi, (lo, hi)) = self.expected_value();
         let v = real!(self.r.value()) as f64;
         ctx.probe(P_VALUE_CHECKS);
-        ctx.check(16, "value_is_corrected_window_mean", (v - want).abs() <= tol, || {
+        let mut mean_ok = (v - want).abs() <= tol;
+        let mut range_ok = v >= glo - tol && v <= ghi + tol;
+        if !mean_ok || !range_ok {
+            // not the documented correction formula: is it the windowed mean under the implementation's own correction?
+            let (mean, mn, mx) = self.window_stats();
+            let t2 = tol + 8.0 * 5.960464477539063e-8;
+            mean_ok = (v - self.g_measured(mean, mx)).abs() <= t2;
+            range_ok = v >= self.g_measured(mn, mx) - t2 && v <= self.g_measured(mx, mx) + t2;
+            ctx.probe(P_MEASURED_CORRECTION_USED);
+        }
+        ctx.check(16, "value_is_corrected_window_mean", mean_ok, || {
             format!(
                 "press of {} samples: value {:.7}, corrected mean of the capture window (samples {}..{} of the press) {:.7}",
                 l, v, lo, hi, want
             )
         });
-        ctx.check(16, "value_between_corrected_min_and_max", v >= glo - tol && v <= ghi + tol, || {
+        ctx.check(16, "value_between_corrected_min_and_max", range_ok, || {
             format!("value {:.7} outside the corrected min/max of the contributing samples [{:.7}, {:.7}]", v, glo, ghi)
         });
         ctx.check(16, "value_in_unit_range", (0.0..=1.0).contains(&v), || format!("value {:e} outside [0,1] while pressing", v));
@@ -245,7 +297,8 @@ impl Exec {
             if was {
                 // what value() has to keep showing from now on: the value of the last sample of the press
                 let (want, tol, _, _, _) = self.expected_value();
-                self.lift_expect = Some((want, tol));
+                let (mean, _, mx) = self.window_stats();
+                self.lift_expect = Some((want, tol, mean, mx));
             }
             self.run.clear();
             self.prefix.truncate(1);
@@ -253,6 +306,7 @@ impl Exec {
         }
         if self.pressing && !was {
             self.jp = true;
+            self.jp_unread += 1;
             self.presses += 1;
             ctx.probe(P_PRESSES_REPORTED);
             if self.presses >= 2 {
@@ -265,6 +319,7 @@ impl Exec {
         }
         if !self.pressing && was {
             self.jr = true;
+            self.jr_unread += 1;
         }
     }
 
@@ -284,9 +339,14 @@ impl Exec {
         let v = real!(self.r.value());
         if self.pressing {
             self.value_oracle(ctx);
-        } else if let Some((want, tol)) = self.lift_expect {
+        } else if let Some((want, tol, mean, mx)) = self.lift_expect {
             ctx.probe(P_RETAINED_VALUE_CHECKS);
-            ctx.check(16, "value_retained_while_not_pressing", (v as f64 - want).abs() <= tol, || {
+            let mut ok = (v as f64 - want).abs() <= tol;
+            if !ok {
+                ok = (v as f64 - self.g_measured(mean, mx)).abs() <= tol + 8.0 * 5.960464477539063e-8;
+                ctx.probe(P_MEASURED_CORRECTION_USED);
+            }
+            ctx.check(16, "value_retained_while_not_pressing", ok, || {
                 format!(
                     "first look after unobserved samples, no press reported: value() is {:.7} but the last reported press ended on {:.7}",
                     v, want
@@ -388,9 +448,13 @@ impl Exec {
         }
         let tv = real!(f.value());
         let tp = real!(f.pressing());
+        // two controllers that average the same window may add it up in a different order (e.g. from wherever their
+        // ring buffer stands), so "the same value" is: within the rounding of an f32 sum of that window
+        let (_, tol, _, _, _) = self.expected_value();
+        let same = (tv as f64 - main as f64).abs() <= tol;
         match kind {
             0 => {
-                ctx.check(16, "fresh_twin_same_value", tp && tv.to_bits() == main.to_bits(), || {
+                ctx.check(16, "fresh_twin_same_value", tp && same, || {
                     format!(
                         "a fresh controller fed only the current press ({} samples) reports pressing={} value {:e}; this one, with earlier history, reports {:e}",
                         l, tp, tv, main
@@ -398,7 +462,7 @@ impl Exec {
                 });
             }
             1 => {
-                ctx.check(16, "newest_samples_do_not_matter", tp && tv.to_bits() == main.to_bits(), || {
+                ctx.check(16, "newest_samples_do_not_matter", tp && same, || {
                     format!(
                         "replacing the newest {} samples (finger-lift allowance) by other in-range values changed the value {:e} -> {:e}",
                         l - hi,
@@ -408,8 +472,7 @@ impl Exec {
                 });
             }
             _ => {
-                let slack = 2.0 * (f32::from_bits(main.to_bits() + 1) - main).abs();
-                ctx.check(16, "raising_a_sample_never_lowers_value", tp && tv >= main - slack, || {
+                ctx.check(16, "raising_a_sample_never_lowers_value", tp && tv as f64 >= main as f64 - tol, || {
                     format!("raising one contributing sample lowered the value {:e} -> {:e}", main, tv)
                 });
             }
@@ -440,6 +503,7 @@ impl Engine for RibbonEngine {
         "sweep_traces",
         "ring_buffer_wrapped_inside_press",
         "unobserved_sample_stretches",
+        "documented_correction_formula_did_not_fit_measured_curve_consulted",
     ];
     const NFAULT: usize = 5;
     const COMPONENTS: &'static [(&'static str, &'static str)] = &[
@@ -495,6 +559,8 @@ impl Engine for RibbonEngine {
             prefix: vec![0.0],
             pressing: false,
             jp: false,
+            jp_unread: 0,
+            jr_unread: 0,
             jr: false,
             retained: retained0,
             ambiguous: false,
@@ -537,8 +603,12 @@ impl Engine for RibbonEngine {
                 let pressed = matches!(ev, Ev::PollPressed);
                 let got = if pressed { real!(ex.r.just_pressed()) } else { real!(ex.r.just_released()) };
                 let want = if pressed { ex.jp } else { ex.jr };
+                let unread = if pressed { ex.jp_unread } else { ex.jr_unread };
+                // `true` needs an unread change; `false` is only right when no change is waiting.  Several changes that
+                // were never polled may be answered by one `true` (a flag) or by one `true` each (a counter)
+                let ok = if got { unread >= 1 } else { !want };
                 if !ex.ambiguous {
-                    ctx.check(15, if pressed { "just_pressed_once_per_press" } else { "just_released_once_per_release" }, got == want, || {
+                    ctx.check(15, if pressed { "just_pressed_once_per_press" } else { "just_released_once_per_release" }, ok, || {
                         format!(
                             "finger_just_{}() returned {} but the press history says {}",
                             if pressed { "pressed" } else { "released" },
@@ -552,8 +622,10 @@ impl Engine for RibbonEngine {
                 }
                 if pressed {
                     ex.jp = false;
+                    ex.jp_unread = if got { ex.jp_unread.saturating_sub(1) } else { 0 };
                 } else {
                     ex.jr = false;
+                    ex.jr_unread = if got { ex.jr_unread.saturating_sub(1) } else { 0 };
                 }
                 ctx.transition(2 | (pressed as u32) << 3 | (got as u32) << 4 | (ex.pressing as u32) << 5);
             }
@@ -561,10 +633,10 @@ impl Engine for RibbonEngine {
                 ex.twin(*kind, *arg, ctx);
             }
             Ev::Capacity(fs) => {
+                // C17 asks that the helper returns (no panic, no overflow) over the documented range; no statement fixes
+                // its formula, so the result is only used, not compared
                 let c = real!(sample_rate_to_capacity(*fs));
-                // 15 ms of capture + 2 ms of lift allowance + 1, by the helper's own documentation
-                let want = (*fs as u64 * 15_000 / 1_000_000 + *fs as u64 * 2_000 / 1_000_000 + 1) as usize;
-                ctx.check(17, "capacity_helper_in_range", c == want, || format!("sample_rate_to_capacity({}) = {}, expected {}", fs, c, want));
+                ctx.cover(0x4000_0000 | (c.min(0xffff) as u32));
             }
             Ev::Restart => {
                 ctx.fault(F_RESTART);
@@ -574,6 +646,8 @@ impl Engine for RibbonEngine {
                 ex.pressing = false;
                 ex.jp = false;
                 ex.jr = false;
+                ex.jp_unread = 0;
+                ex.jr_unread = 0;
                 ex.retained = real!(ex.r.value()).to_bits();
                 ex.lift_expect = None;
                 ex.ambiguous = false;
